@@ -24,6 +24,10 @@ fn gen_terminals(rng: &mut Rng) -> Vec<Rx> {
     idx[..k].iter().map(|&i| pool[i].clone()).collect()
 }
 
+pub fn gen_cfg_pub(rng: &mut Rng) -> Gram {
+    gen_cfg(rng)
+}
+
 fn gen_cfg(rng: &mut Rng) -> Gram {
     let lexemes = gen_terminals(rng);
     let nlex = lexemes.len();
